@@ -53,7 +53,9 @@ Qed.
 Lemma isi_ratio_noop : forall m a b, 0 <= a -> 0 <= b -> m <= Rmax a b ->
   isi_ratio ROps m a b = isi_ratio ROps 0 a b.
 Proof.
-  intros m a b Ha Hb Hm. rewrite !isi_ratio_R. f_equal. rmm; lra.
+  intros m a b Ha Hb Hm. rewrite !isi_ratio_R.
+  replace (Rmax (Rmax a b) m) with (Rmax a b) by (rmm; lra).
+  replace (Rmax (Rmax a b) 0) with (Rmax a b) by (rmm; lra). reflexivity.
 Qed.
 
 Lemma isi_ratio_scale : forall k m a b, 0 < k ->
@@ -61,10 +63,625 @@ Lemma isi_ratio_scale : forall k m a b, 0 < k ->
 Proof.
   intros k m a b Hk. rewrite !isi_ratio_R.
   rewrite !RmaxRmult by lra. rewrite <- Rmult_minus_distr_l, Rabs_mult, (Rabs_pos_eq k) by lra.
-  unfold Rdiv. rewrite Rinv_mult. field_simplify_eq; [reflexivity|lra].
+  unfold Rdiv. rewrite Rinv_mult.
+  set (N := Rabs (a - b)). set (I := / Rmax (Rmax a b) m).
+  replace (k * N * (/ k * I)) with ((k * / k) * (N * I)) by ring.
+  rewrite Rinv_r by lra. ring.
 Qed.
 
 Lemma isi_ratio_self : forall m a, isi_ratio ROps m a a = 0.
 Proof.
   intros. rewrite isi_ratio_R. unfold Rminus. rewrite Rplus_opp_r, Rabs_R0. unfold Rdiv. apply Rmult_0_l.
 Qed.
+
+(* ------------------------------------------------------------------ *)
+(* unfolding helpers                                                   *)
+
+Definition isi_prof (ratio : R -> R -> R -> R) (ts te m nu1 nu2 : R) (evs : list (R * R * R)) : list R * list R :=
+  close_profile ROps te (ts :: map (@ev_t R) evs)
+    (ratio m nu1 nu2 :: map (fun e => ratio m (snd (fst e)) (snd e)) evs).
+
+Lemma isi_profile_py_unfold s1 s2 ts te m :
+  isi_profile_py ROps s1 s2 ts te m =
+  isi_prof (isi_ratio ROps) ts te m (snd (isi_init ROps ts te s1)) (snd (isi_init ROps ts te s2))
+    (isi_loop ROps (length s1 + length s2) te
+       (fst (fst (isi_init ROps ts te s1))) (snd (fst (isi_init ROps ts te s1))) (snd (isi_init ROps ts te s1))
+       (fst (fst (isi_init ROps ts te s2))) (snd (fst (isi_init ROps ts te s2))) (snd (isi_init ROps ts te s2))).
+Proof.
+  unfold isi_profile_py, isi_profile_gen, isi_scan.
+  destruct (isi_init ROps ts te s1) as [[p1 f1] nu1], (isi_init ROps ts te s2) as [[p2 f2] nu2].
+  reflexivity.
+Qed.
+
+Lemma isi_profile_cy_unfold s1 s2 ts te m :
+  isi_profile_cy ROps s1 s2 ts te m =
+  isi_prof (isi_ratio_cy ROps) ts te m (snd (isi_init ROps ts te s1)) (snd (isi_init ROps ts te s2))
+    (isi_loop_cy ROps (length s1 + length s2) te
+       (fst (fst (isi_init ROps ts te s1))) (snd (fst (isi_init ROps ts te s1))) (snd (isi_init ROps ts te s1))
+       (fst (fst (isi_init ROps ts te s2))) (snd (fst (isi_init ROps ts te s2))) (snd (isi_init ROps ts te s2))).
+Proof.
+  unfold isi_profile_cy, isi_profile_gen, isi_scan_cy.
+  destruct (isi_init ROps ts te s1) as [[p1 f1] nu1], (isi_init ROps ts te s2) as [[p2 f2] nu2].
+  reflexivity.
+Qed.
+
+(* ------------------------------------------------------------------ *)
+(* 8. symmetry                                                         *)
+
+Definition swap3 (e : R * R * R) : R * R * R := (fst (fst e), snd e, snd (fst e)).
+
+Lemma isi_loop_sym : forall k te p1 f1 nu1 p2 f2 nu2,
+  isi_loop ROps k te p1 f1 nu1 p2 f2 nu2 = map swap3 (isi_loop ROps k te p2 f2 nu2 p1 f1 nu1).
+Proof.
+  induction k as [|k IH]; intros te p1 f1 nu1 p2 f2 nu2; [reflexivity|].
+  cbn [isi_loop].
+  destruct f1 as [|a f1'], f2 as [|b f2']; cbn [map]; try reflexivity.
+  - rewrite (IH te p1 [] nu1 (b :: p2) f2'). reflexivity.
+  - rewrite (IH te (a :: p1) f1' _ p2 []). reflexivity.
+  - cbn [nltb ROps].
+    destruct (Rltb_spec a b) as [Hab|Hab], (Rltb_spec b a) as [Hba|Hba]; try lra; cbn [map].
+    + rewrite (IH te (a :: p1) f1' _ p2 (b :: f2')). reflexivity.
+    + rewrite (IH te p1 (a :: f1') nu1 (b :: p2) f2'). reflexivity.
+    + assert (a = b) by lra. subst b.
+      rewrite (IH te (a :: p1) f1' _ (a :: p2) f2'). reflexivity.
+Qed.
+
+Lemma isi_profile_sym : forall s1 s2 ts te m,
+  isi_profile_py ROps s1 s2 ts te m = isi_profile_py ROps s2 s1 ts te m.
+Proof.
+  intros. rewrite !isi_profile_py_unfold.
+  rewrite (Nat.add_comm (length s1)), isi_loop_sym. unfold isi_prof.
+  match goal with |- context [map swap3 ?l] => set (L := l) end.
+  assert (E1 : map (@ev_t R) (map swap3 L) = map (@ev_t R) L).
+  { rewrite map_map. apply map_ext. intros [[t x] y]. reflexivity. }
+  assert (E2 : map (fun e => isi_ratio ROps m (snd (fst e)) (snd e)) (map swap3 L)
+               = map (fun e => isi_ratio ROps m (snd (fst e)) (snd e)) L).
+  { rewrite map_map. apply map_ext. intros [[t x] y]. cbn [swap3 fst snd]. apply isi_ratio_sym. }
+  rewrite E1, E2, (isi_ratio_sym m (snd (isi_init ROps ts te s1))). reflexivity.
+Qed.
+
+(* ------------------------------------------------------------------ *)
+(* 14. the cython variant computes the same profile                    *)
+
+Definition cy_inv (p f : list R) (nu : R) : Prop :=
+  match p, f with y :: _, x :: _ => nu = x - y | _, _ => True end.
+
+Lemma nu_after_cy_eq te nu a p f' : cy_inv p (a :: f') nu ->
+  nu_after_cy ROps te nu (a :: p) f' = nu_after ROps te (a :: p) f'.
+Proof.
+  intros H. destruct f' as [|y f'']; [|destruct p; reflexivity].
+  destruct p as [|q p']; [reflexivity|]. cbn in H. cbn [nu_after nu_after_cy nsub ROps]. rewrite H. reflexivity.
+Qed.
+
+Lemma cy_inv_after te a p f' : cy_inv (a :: p) f' (nu_after ROps te (a :: p) f').
+Proof. destruct f'; [exact I | destruct p; reflexivity]. Qed.
+
+Lemma cy_inv_init ts te s :
+  cy_inv (fst (fst (isi_init ROps ts te s))) (snd (fst (isi_init ROps ts te s))) (snd (isi_init ROps ts te s)).
+Proof.
+  destruct s as [|x0 r]; cbn [isi_init]; [exact I|].
+  cbn [nltb ROps]. destruct (Rltb ts x0); cbn [fst snd]; [exact I|].
+  destruct r; cbn; auto.
+Qed.
+
+Lemma isi_loop_cy_eq : forall k te p1 f1 nu1 p2 f2 nu2,
+  cy_inv p1 f1 nu1 -> cy_inv p2 f2 nu2 ->
+  isi_loop_cy ROps k te p1 f1 nu1 p2 f2 nu2 = isi_loop ROps k te p1 f1 nu1 p2 f2 nu2.
+Proof.
+  induction k as [|k IH]; intros te p1 f1 nu1 p2 f2 nu2 I1 I2; [reflexivity|].
+  cbn [isi_loop isi_loop_cy].
+  destruct f1 as [|a f1'], f2 as [|b f2']; try reflexivity.
+  - rewrite (nu_after_cy_eq te _ _ _ _ I2). rewrite IH; auto using cy_inv_after.
+  - rewrite (nu_after_cy_eq te _ _ _ _ I1). rewrite IH; auto using cy_inv_after.
+  - rewrite (nu_after_cy_eq te _ _ _ _ I1), (nu_after_cy_eq te _ _ _ _ I2).
+    destruct (nltb ROps a b); [|destruct (nltb ROps b a)]; rewrite IH; auto using cy_inv_after.
+Qed.
+
+Lemma isi_profile_cy_eq : forall s1 s2 ts te m,
+  isi_profile_cy ROps s1 s2 ts te m = isi_profile_py ROps s1 s2 ts te m.
+Proof.
+  intros. rewrite isi_profile_cy_unfold, isi_profile_py_unfold.
+  rewrite isi_loop_cy_eq by apply cy_inv_init.
+  unfold isi_prof. f_equal. f_equal; [apply isi_ratio_cy_eq|].
+  apply map_ext. intros. apply isi_ratio_cy_eq.
+Qed.
+
+(* ------------------------------------------------------------------ *)
+(* list helpers                                                        *)
+
+Lemma Forall_removelast {A} (P : A -> Prop) l : Forall P l -> Forall P (removelast l).
+Proof.
+  induction l as [|a l IH]; intros H; [constructor|].
+  inversion H as [|? ? Ha Hl]; subst. destruct l as [|b l']; [constructor|].
+  change (Forall P (a :: removelast (b :: l'))). constructor; auto.
+Qed.
+
+Lemma Forall2_removelast {A B} (P : A -> B -> Prop) l l' :
+  Forall2 P l l' -> Forall2 P (removelast l) (removelast l').
+Proof.
+  induction 1 as [|a b l l' Hab Hl IH]; [constructor|].
+  destruct Hl as [|a2 b2 l2 l2' H2 Hl2]; [constructor|].
+  change (Forall2 P (a :: removelast (a2 :: l2)) (b :: removelast (b2 :: l2'))). constructor; auto.
+Qed.
+
+Lemma snd_close_profile_Forall (P : R -> Prop) te xs ys :
+  Forall P ys -> Forall P (snd (close_profile ROps te xs ys)).
+Proof.
+  intros H. unfold close_profile. destruct (neqb ROps (last xs te) te); cbn [snd]; auto using Forall_removelast.
+Qed.
+
+(* ------------------------------------------------------------------ *)
+(* running nu >= 0                                                     *)
+
+Lemma nu_after_nonneg te a p f' :
+  ssorted (a :: f') -> Forall (fun x => x <= te) (a :: f') -> 0 <= nu_after ROps te (a :: p) f'.
+Proof.
+  intros Hs Hb. apply ssorted_cons_inv in Hs as [Hs Hlt].
+  inversion Hb as [|? ? Ha Hb']; subst.
+  destruct f' as [|y f''].
+  - destruct p as [|q p']; cbn [nu_after]; rops; [lra|].
+    apply Rle_trans with (te - a); [lra|apply Rmax_l].
+  - inversion Hlt; subst. destruct p; cbn [nu_after]; rops; lra.
+Qed.
+
+Definition nu_ok (e : R * R * R) : Prop := 0 <= snd (fst e) /\ 0 <= snd e.
+
+Lemma isi_nu_nonneg : forall k te p1 f1 nu1 p2 f2 nu2,
+  ssorted f1 -> Forall (fun x => x <= te) f1 ->
+  ssorted f2 -> Forall (fun x => x <= te) f2 ->
+  0 <= nu1 -> 0 <= nu2 ->
+  Forall nu_ok (isi_loop ROps k te p1 f1 nu1 p2 f2 nu2).
+Proof.
+  induction k as [|k IH]; intros te p1 f1 nu1 p2 f2 nu2 S1 B1 S2 B2 N1 N2; [constructor|].
+  cbn [isi_loop].
+  destruct f1 as [|a f1'], f2 as [|b f2']; [constructor| | |].
+  - pose proof (@nu_after_nonneg te _ p2 _ S2 B2) as Hn.
+    apply ssorted_cons_inv in S2 as [S2' _]. inversion B2; subst.
+    constructor; [split; cbn [fst snd]; auto|]. apply IH; auto.
+  - pose proof (@nu_after_nonneg te _ p1 _ S1 B1) as Hn.
+    apply ssorted_cons_inv in S1 as [S1' _]. inversion B1; subst.
+    constructor; [split; cbn [fst snd]; auto|]. apply IH; auto.
+  - pose proof (@nu_after_nonneg te _ p1 _ S1 B1) as Hn1.
+    pose proof (@nu_after_nonneg te _ p2 _ S2 B2) as Hn2.
+    pose proof S1 as S1c. pose proof S2 as S2c. pose proof B1 as B1c. pose proof B2 as B2c.
+    apply ssorted_cons_inv in S1 as [S1' _]. inversion B1; subst.
+    apply ssorted_cons_inv in S2 as [S2' _]. inversion B2; subst.
+    destruct (nltb ROps a b); [|destruct (nltb ROps b a)];
+      (constructor; [split; cbn [fst snd]; auto|]; apply IH; auto).
+Qed.
+
+Lemma isi_init_ok ts te s : valid ts te s ->
+  0 <= snd (isi_init ROps ts te s) /\
+  ssorted (snd (fst (isi_init ROps ts te s))) /\
+  Forall (fun x => x <= te) (snd (fst (isi_init ROps ts te s))) /\
+  Forall (fun x => ts < x) (snd (fst (isi_init ROps ts te s))).
+Proof.
+  intros (Hlt & Hs & Hb).
+  assert (Hb' : Forall (fun x => x <= te) s) by (eapply Forall_impl; [|exact Hb]; cbn; intros; lra).
+  destruct s as [|x0 r]; cbn [isi_init].
+  - cbn [fst snd]. rops. repeat split; auto using ssorted_nil. lra.
+  - pose proof Hs as Hs0. apply ssorted_cons_inv in Hs as [Hr Hx0].
+    inversion Hb as [|? ? Hx0b Hrb]; subst. inversion Hb' as [|? ? Hx0b' Hrb']; subst.
+    cbn [nltb ROps]. destruct (Rltb_spec ts x0) as [H0|H0]; cbn [fst snd].
+    + repeat split; auto.
+      * destruct r as [|x1 r']; rops; [lra|]. apply Rle_trans with (x0 - ts); [lra|apply Rmax_l].
+      * constructor; auto. eapply Forall_impl; [|exact Hx0]. cbn; intros; lra.
+    + repeat split; auto.
+      * destruct r as [|x1 r']; rops; [lra|]. inversion Hx0; subst. lra.
+      * eapply Forall_impl; [|exact Hx0]. cbn; intros; lra.
+Qed.
+
+(* ------------------------------------------------------------------ *)
+(* 12. range                                                           *)
+
+Lemma isi_profile_range : forall s1 s2 ts te m,
+  valid ts te s1 -> valid ts te s2 -> s1 <> [] -> s2 <> [] -> 0 <= m ->
+  Forall (fun y => 0 <= y <= 1) (snd (isi_profile_py ROps s1 s2 ts te m)).
+Proof.
+  intros s1 s2 ts te m V1 V2 _ _ Hm. rewrite isi_profile_py_unfold. unfold isi_prof.
+  destruct (@isi_init_ok ts te s1 V1) as (N1 & S1 & B1 & _), (@isi_init_ok ts te s2 V2) as (N2 & S2 & B2 & _).
+  apply snd_close_profile_Forall. constructor; [apply isi_ratio_range; auto|].
+  apply Forall_map.
+  eapply Forall_impl; [|apply isi_nu_nonneg; eauto].
+  intros e [H1 H2]. apply isi_ratio_range; auto.
+Qed.
+
+(* ------------------------------------------------------------------ *)
+(* 13. identical trains                                                *)
+
+Lemma isi_loop_self : forall k te p f nu,
+  Forall (fun e => snd (fst e) = snd e) (isi_loop ROps k te p f nu p f nu).
+Proof.
+  induction k as [|k IH]; intros te p f nu; [constructor|].
+  cbn [isi_loop]. destruct f as [|a f']; [constructor|].
+  cbn [nltb ROps]. destruct (Rltb_spec a a) as [H|H]; [lra|].
+  constructor; [reflexivity|apply IH].
+Qed.
+
+Lemma isi_profile_self : forall s ts te m,
+  Forall (fun y => y = 0) (snd (isi_profile_py ROps s s ts te m)).
+Proof.
+  intros. rewrite isi_profile_py_unfold. unfold isi_prof.
+  apply snd_close_profile_Forall. constructor; [apply isi_ratio_self|].
+  apply Forall_map. eapply Forall_impl; [|apply isi_loop_self].
+  intros e He. cbn beta. rewrite He. apply isi_ratio_self.
+Qed.
+
+(* ------------------------------------------------------------------ *)
+(* 15. well-formedness of the profile                                  *)
+
+Lemma ssorted_cons_lt lo a l : lo < a -> ssorted (a :: l) -> ssorted (lo :: a :: l).
+Proof.
+  intros Hlo Hs. apply ssorted_cons; auto.
+  apply ssorted_cons_inv in Hs as [_ Hl]. constructor; auto.
+  eapply Forall_impl; [|exact Hl]. cbn; intros; lra.
+Qed.
+
+Lemma Forall_lt_trans a b l : a < b -> Forall (fun y => b < y) l -> Forall (fun y => a < y) l.
+Proof. intros H F. eapply Forall_impl; [|exact F]. cbn; intros; lra. Qed.
+
+Lemma isi_loop_sorted : forall k te lo p1 f1 nu1 p2 f2 nu2,
+  ssorted f1 -> ssorted f2 ->
+  Forall (fun y => lo < y) f1 -> Forall (fun y => lo < y) f2 ->
+  ssorted (lo :: map (@ev_t R) (isi_loop ROps k te p1 f1 nu1 p2 f2 nu2)).
+Proof.
+  induction k as [|k IH]; intros te lo p1 f1 nu1 p2 f2 nu2 S1 S2 L1 L2.
+  { cbn. apply ssorted_cons; [apply ssorted_nil|constructor]. }
+  cbn [isi_loop].
+  destruct f1 as [|a f1'], f2 as [|b f2'].
+  - cbn. apply ssorted_cons; [apply ssorted_nil|constructor].
+  - cbn [map ev_t fst]. inversion L2; subst. apply ssorted_cons_inv in S2 as [S2' Hb].
+    apply ssorted_cons_lt; [assumption|apply IH; auto].
+  - cbn [map ev_t fst]. inversion L1; subst. apply ssorted_cons_inv in S1 as [S1' Ha].
+    apply ssorted_cons_lt; [assumption|apply IH; auto].
+  - inversion L1 as [|? ? La L1']; subst. inversion L2 as [|? ? Lb L2']; subst.
+    pose proof S1 as S1c. pose proof S2 as S2c.
+    apply ssorted_cons_inv in S1 as [S1' Ha]. apply ssorted_cons_inv in S2 as [S2' Hb].
+    cbn [nltb ROps].
+    destruct (Rltb_spec a b) as [Hab|Hab]; [|destruct (Rltb_spec b a) as [Hba|Hba]];
+      cbn [map ev_t fst]; (apply ssorted_cons_lt; [assumption|apply IH; auto]).
+    + constructor; auto. eapply Forall_lt_trans; eauto.
+    + constructor; auto. eapply Forall_lt_trans; eauto.
+    + assert (a = b) by lra. subst b. auto.
+Qed.
+
+Lemma isi_loop_events (P : R -> Prop) : forall k te p1 f1 nu1 p2 f2 nu2,
+  Forall P f1 -> Forall P f2 ->
+  Forall P (map (@ev_t R) (isi_loop ROps k te p1 f1 nu1 p2 f2 nu2)).
+Proof.
+  induction k as [|k IH]; intros te p1 f1 nu1 p2 f2 nu2 F1 F2; [constructor|].
+  cbn [isi_loop].
+  destruct f1 as [|a f1'], f2 as [|b f2']; [constructor| | |].
+  - inversion F2; subst. cbn [map ev_t fst]. constructor; auto.
+  - inversion F1; subst. cbn [map ev_t fst]. constructor; auto.
+  - pose proof F1 as F1c. pose proof F2 as F2c. inversion F1; subst. inversion F2; subst.
+    destruct (nltb ROps a b); [|destruct (nltb ROps b a)]; cbn [map ev_t fst]; constructor; auto.
+Qed.
+
+Lemma last_nonempty_default {A} (l : list A) d d' : l <> [] -> last l d = last l d'.
+Proof.
+  induction l as [|a l IH]; intros H; [congruence|].
+  destruct l as [|b l']; [reflexivity|]. cbn [last] in *. apply IH. congruence.
+Qed.
+
+Lemma last_cons_default {A} (a : A) l d : last (a :: l) d = last l a.
+Proof.
+  destruct l as [|b l']; [reflexivity|].
+  change (last (a :: b :: l') d) with (last (b :: l') d). apply last_nonempty_default. congruence.
+Qed.
+
+Lemma ssorted_snoc te xs : ssorted xs -> Forall (fun x => x <= te) xs -> last xs te <> te ->
+  ssorted (xs ++ [te]).
+Proof.
+  induction xs as [|x xs IH]; intros Hs Hb Hl.
+  - cbn. apply ssorted_cons; [apply ssorted_nil|constructor].
+  - apply ssorted_cons_inv in Hs as [Hs Hx]. inversion Hb as [|? ? Hxb Hb']; subst.
+    rewrite last_cons_default in Hl.
+    destruct xs as [|y xs'].
+    + cbn in *. apply ssorted_cons; [apply ssorted_cons; [apply ssorted_nil|constructor]|].
+      constructor; [lra|constructor].
+    + cbn [app]. change (ssorted (x :: (y :: xs') ++ [te])). apply ssorted_cons.
+      * apply IH; auto. rewrite (last_nonempty_default (y :: xs') te x) by congruence. exact Hl.
+      * apply Forall_app. split; auto. constructor; [|constructor].
+        inversion Hx; subst. inversion Hb'; subst. lra.
+Qed.
+
+Lemma removelast_length {A} (l : list A) : length (removelast l) = pred (length l).
+Proof.
+  induction l as [|a l IH]; [reflexivity|].
+  destruct l as [|b l']; [reflexivity|].
+  change (length (a :: removelast (b :: l')) = length (b :: l')). cbn [length]. rewrite IH. reflexivity.
+Qed.
+
+(* well-formedness of [close_profile] given a sorted, bounded axis *)
+Lemma close_profile_wf ts te (es ys : list R) :
+  ssorted (ts :: es) -> Forall (fun x => x <= te) (ts :: es) -> length ys = S (length es) ->
+  let p := close_profile ROps te (ts :: es) ys in
+  length (fst p) = S (length (snd p)) /\ hd 0 (fst p) = ts /\ last (fst p) 0 = te /\ ssorted (fst p).
+Proof.
+  intros Hs Hb Hlen. unfold close_profile. cbn [neqb ROps].
+  destruct (Reqb_spec (last (ts :: es) te) te) as [E|E]; cbn [fst snd].
+  - repeat split; auto.
+    + rewrite removelast_length, Hlen. reflexivity.
+    + rewrite (last_nonempty_default _ 0 te) by congruence. exact E.
+  - repeat split.
+    + rewrite app_length, Hlen. cbn [length]. lia.
+    + rewrite last_last. reflexivity.
+    + apply ssorted_snoc; auto.
+Qed.
+
+Lemma isi_profile_wf : forall s1 s2 ts te m,
+  valid ts te s1 -> valid ts te s2 -> s1 <> [] -> s2 <> [] ->
+  let p := isi_profile_py ROps s1 s2 ts te m in
+  length (fst p) = S (length (snd p)) /\ hd 0 (fst p) = ts /\ last (fst p) 0 = te /\ ssorted (fst p).
+Proof.
+  intros s1 s2 ts te m V1 V2 _ _. rewrite isi_profile_py_unfold. unfold isi_prof.
+  destruct (@isi_init_ok ts te s1 V1) as (N1 & S1 & B1 & L1), (@isi_init_ok ts te s2 V2) as (N2 & S2 & B2 & L2).
+  apply close_profile_wf.
+  - apply isi_loop_sorted; auto.
+  - constructor; [destruct V1; lra|]. apply isi_loop_events; auto.
+  - cbn [length]. rewrite !map_length. reflexivity.
+Qed.
+
+(* ------------------------------------------------------------------ *)
+(* 11. MRTS: breakpoints independent, values monotone                  *)
+
+Lemma isi_profile_mrts_zero_eq : forall s1 s2 ts te m m',
+  fst (isi_profile_py ROps s1 s2 ts te m) = fst (isi_profile_py ROps s1 s2 ts te m').
+Proof.
+  intros. rewrite !isi_profile_py_unfold. unfold isi_prof, close_profile.
+  destruct (neqb ROps _ te); reflexivity.
+Qed.
+
+Lemma isi_profile_mrts_monotone : forall s1 s2 ts te m m',
+  valid ts te s1 -> valid ts te s2 -> s1 <> [] -> s2 <> [] -> 0 <= m -> m <= m' ->
+  Forall2 (fun y' y => y' <= y) (snd (isi_profile_py ROps s1 s2 ts te m'))
+                                (snd (isi_profile_py ROps s1 s2 ts te m)).
+Proof.
+  intros s1 s2 ts te m m' V1 V2 _ _ Hm Hmm. rewrite !isi_profile_py_unfold. unfold isi_prof.
+  destruct (@isi_init_ok ts te s1 V1) as (N1 & S1 & B1 & _), (@isi_init_ok ts te s2 V2) as (N2 & S2 & B2 & _).
+  match goal with |- context [isi_loop ROps ?k ?t ?a ?b ?c ?d ?e ?f] =>
+    pose proof (@isi_nu_nonneg k t a b c d e f S1 B1 S2 B2 N1 N2) as HN;
+    set (L := isi_loop ROps k t a b c d e f) in * end.
+  assert (HF : Forall2 (fun y' y => y' <= y)
+            (map (fun e => isi_ratio ROps m' (snd (fst e)) (snd e)) L)
+            (map (fun e => isi_ratio ROps m (snd (fst e)) (snd e)) L)).
+  { clearbody L. induction HN as [|e L' [H1 H2] _ IH]; cbn [map]; constructor; auto.
+    apply isi_ratio_mono_m; auto. }
+  unfold close_profile. destruct (neqb ROps _ te); cbn [snd].
+  - apply Forall2_removelast. constructor; auto. apply isi_ratio_mono_m; auto.
+  - constructor; auto. apply isi_ratio_mono_m; auto.
+Qed.
+
+(* ------------------------------------------------------------------ *)
+(* 16. the single-pass distance is the average of the profile          *)
+
+Lemma isi_distance_cy_unfold s1 s2 ts te m :
+  isi_distance_cy ROps s1 s2 ts te m =
+  let evs := isi_loop_cy ROps (length s1 + length s2) te
+       (fst (fst (isi_init ROps ts te s1))) (snd (fst (isi_init ROps ts te s1))) (snd (isi_init ROps ts te s1))
+       (fst (fst (isi_init ROps ts te s2))) (snd (fst (isi_init ROps ts te s2))) (snd (isi_init ROps ts te s2)) in
+  let r := isi_acc ROps m evs ts
+       (isi_ratio_cy ROps m (snd (isi_init ROps ts te s1)) (snd (isi_init ROps ts te s2))) 0 in
+  (if Rltb (fst (fst r)) te then snd r + snd (fst r) * (te - fst (fst r)) else snd r) / (te - ts).
+Proof.
+  unfold isi_distance_cy, isi_scan_cy.
+  destruct (isi_init ROps ts te s1) as [[p1 f1] nu1], (isi_init ROps ts te s2) as [[p2 f2] nu2].
+  cbn [fst snd]. cbv zeta.
+  destruct (isi_acc ROps m _ ts _ _) as [[lt cur] acc]. reflexivity.
+Qed.
+
+Definition cy_val (m : R) (e : R * R * R) : R := isi_ratio_cy ROps m (snd (fst e)) (snd e).
+
+Lemma pwc_int_all_cons2 x0 x1 xs y ys :
+  pwc_int_all ROps (x0 :: x1 :: xs) (y :: ys) = (x1 - x0) * y + pwc_int_all ROps (x1 :: xs) ys.
+Proof. reflexivity. Qed.
+
+Lemma isi_acc_spec : forall evs m t0 cur acc,
+  isi_acc ROps m evs t0 cur acc =
+  (last (map (@ev_t R) evs) t0, last (map (cy_val m) evs) cur,
+   acc + pwc_int_all ROps (t0 :: map (@ev_t R) evs) (cur :: map (cy_val m) evs)).
+Proof.
+  induction evs as [|[[t nu1] nu2] r IH]; intros m t0 cur acc.
+  - cbn. f_equal. lra.
+  - cbn [isi_acc]. rewrite IH. cbn [map]. rewrite !last_cons_default.
+    rewrite pwc_int_all_cons2.
+    change (cy_val m (t, nu1, nu2)) with (isi_ratio_cy ROps m nu1 nu2).
+    change (ev_t (t, nu1, nu2)) with t.
+    f_equal. rops. ring.
+Qed.
+
+Lemma pwc_int_all_removelast : forall xs ys, length xs = length ys ->
+  pwc_int_all ROps xs (removelast ys) = pwc_int_all ROps xs ys.
+Proof.
+  induction xs as [|x0 xs IH]; intros ys Hlen; [reflexivity|].
+  destruct ys as [|y ys]; [reflexivity|].
+  destruct xs as [|x1 xs'], ys as [|y1 ys']; try discriminate; [reflexivity|].
+  change (removelast (y :: y1 :: ys')) with (y :: removelast (y1 :: ys')).
+  rewrite !pwc_int_all_cons2. f_equal. apply IH. cbn [length] in *. lia.
+Qed.
+
+Lemma pwc_int_all_snoc : forall xs ys te, length xs = length ys -> xs <> [] ->
+  pwc_int_all ROps (xs ++ [te]) ys = pwc_int_all ROps xs ys + (te - last xs 0) * last ys 0.
+Proof.
+  induction xs as [|x0 xs IH]; intros ys te Hlen Hne; [congruence|].
+  destruct ys as [|y ys]; [discriminate|].
+  destruct xs as [|x1 xs'], ys as [|y1 ys']; try discriminate.
+  - cbn. lra.
+  - change ((x0 :: x1 :: xs') ++ [te]) with (x0 :: x1 :: (xs' ++ [te])).
+    rewrite !pwc_int_all_cons2. change (x1 :: xs' ++ [te]) with ((x1 :: xs') ++ [te]).
+    rewrite IH by (cbn [length] in *; try lia; congruence).
+    change (last (x0 :: x1 :: xs') 0) with (last (x1 :: xs') 0).
+    change (last (y :: y1 :: ys') 0) with (last (y1 :: ys') 0).
+    rops. ring.
+Qed.
+
+Lemma Forall_last_P {A} (P : A -> Prop) l d : Forall P l -> P d -> P (last l d).
+Proof.
+  induction 1 as [|x l Hx Hl IH]; intros Hd; [exact Hd|].
+  destruct l as [|y l']; [exact Hx|].
+  change (last (x :: y :: l') d) with (last (y :: l') d). apply IH; exact Hd.
+Qed.
+
+Lemma isi_distance_cy_avrg : forall s1 s2 ts te m,
+  valid ts te s1 -> valid ts te s2 -> s1 <> [] -> s2 <> [] ->
+  Ok (isi_distance_cy ROps s1 s2 ts te m) = pwc_avrg ROps (isi_profile_cy ROps s1 s2 ts te m) (@IvNone R).
+Proof.
+  intros s1 s2 ts te m V1 V2 _ _.
+  rewrite isi_distance_cy_unfold, isi_profile_cy_unfold. cbv zeta.
+  rewrite isi_loop_cy_eq by apply cy_inv_init.
+  destruct (@isi_init_ok ts te s1 V1) as (N1 & S1 & B1 & L1), (@isi_init_ok ts te s2 V2) as (N2 & S2 & B2 & L2).
+  match goal with |- context [isi_loop ROps ?k ?t ?a ?b ?c ?d ?e ?f] =>
+    pose proof (@isi_loop_events (fun x => x <= te) k t a b c d e f B1 B2) as HB;
+    set (L := isi_loop ROps k t a b c d e f) in * end.
+  unfold isi_prof.
+  set (r0 := isi_ratio_cy ROps m _ _).
+  rewrite isi_acc_spec. cbn [fst snd].
+  fold (cy_val m).
+  set (es := map (@ev_t R) L) in *. set (vs := map (cy_val m) L).
+  assert (Hlen : length (ts :: es) = length (r0 :: vs)).
+  { unfold es, vs. cbn [length]. rewrite !map_length. reflexivity. }
+  assert (Hts : ts < te) by (destruct V1; auto).
+  assert (Hlast : last es ts <= te).
+  { apply (Forall_last_P (fun x => x <= te)); [exact HB|lra]. }
+  unfold pwc_avrg, avrg_gen, pwc_integral, close_profile. cbn [neqb ROps].
+  rewrite (last_cons_default ts es te).
+  destruct (Reqb_spec (last es ts) te) as [E|E]; cbn [fst snd rmap].
+  - rewrite E. destruct (Rltb_spec te te) as [H|H]; [lra|].
+    unfold nthF, lastF. cbn [nth]. rewrite last_cons_default, E.
+    rewrite pwc_int_all_removelast by exact Hlen. rops. f_equal. f_equal. ring.
+  - destruct (Rltb_spec (last es ts) te) as [H|H]; [|lra].
+    unfold nthF, lastF. rewrite last_last.
+    rewrite pwc_int_all_snoc by (auto; congruence).
+    rewrite !last_cons_default. change (nth 0 ((ts :: es) ++ [te]) (n0 ROps)) with ts.
+    rops. f_equal. f_equal. ring.
+Qed.
+
+(* ------------------------------------------------------------------ *)
+(* 9, 10. shift and scale covariance, from one generic transport lemma *)
+
+Section Transform.
+  Variables g h : R -> R.
+  Hypothesis g_lt : forall a b, Rltb (g a) (g b) = Rltb a b.
+  Hypothesis g_sub : forall a b, g b - g a = h (b - a).
+  Hypothesis h_max : forall a b, Rmax (h a) (h b) = h (Rmax a b).
+  Hypothesis h_0 : h 0 = 0.
+
+  Definition tr3 (e : R * R * R) : R * R * R := (g (fst (fst e)), h (snd (fst e)), h (snd e)).
+
+  Lemma g_inj a b : g a = g b -> a = b.
+  Proof.
+    intros E. pose proof (g_lt a b) as H1. pose proof (g_lt b a) as H2. rewrite E in H1, H2.
+    destruct (Rltb_spec (g b) (g b)) as [H|_]; [lra|].
+    symmetry in H1, H2. apply Rltb_false in H1. apply Rltb_false in H2. lra.
+  Qed.
+
+  Lemma nu_after_tr te p f :
+    nu_after ROps (g te) (map g p) (map g f) = h (nu_after ROps te p f).
+  Proof.
+    destruct p as [|x p']; [destruct f; cbn; auto|].
+    destruct f as [|y f'].
+    - destruct p' as [|q p'']; cbn [map nu_after]; rops; [apply g_sub|].
+      rewrite !g_sub. apply h_max.
+    - destruct p'; cbn [map nu_after]; rops; apply g_sub.
+  Qed.
+
+  Lemma isi_loop_tr : forall k te p1 f1 nu1 p2 f2 nu2,
+    isi_loop ROps k (g te) (map g p1) (map g f1) (h nu1) (map g p2) (map g f2) (h nu2)
+    = map tr3 (isi_loop ROps k te p1 f1 nu1 p2 f2 nu2).
+  Proof.
+    induction k as [|k IH]; intros te p1 f1 nu1 p2 f2 nu2; [reflexivity|].
+    cbn [isi_loop].
+    destruct f1 as [|a f1'], f2 as [|b f2']; cbn [map]; try reflexivity.
+    - change (g b :: map g p2) with (map g (b :: p2)). rewrite nu_after_tr.
+      f_equal. apply (IH te p1 [] nu1 (b :: p2) f2').
+    - change (g a :: map g p1) with (map g (a :: p1)). rewrite nu_after_tr.
+      f_equal. apply (IH te (a :: p1) f1' _ p2 []).
+    - change (g b :: map g p2) with (map g (b :: p2)).
+      change (g a :: map g p1) with (map g (a :: p1)).
+      change (g b :: map g f2') with (map g (b :: f2')).
+      change (g a :: map g f1') with (map g (a :: f1')).
+      cbn [nltb ROps]. rewrite !g_lt, !nu_after_tr.
+      destruct (Rltb a b); [|destruct (Rltb b a)]; rewrite IH; reflexivity.
+  Qed.
+
+  Lemma isi_init_tr ts te s :
+    isi_init ROps (g ts) (g te) (map g s) =
+    (map g (fst (fst (isi_init ROps ts te s))), map g (snd (fst (isi_init ROps ts te s))),
+     h (snd (isi_init ROps ts te s))).
+  Proof.
+    destruct s as [|x0 r]; cbn [map isi_init].
+    - cbn [fst snd map]. rops. rewrite h_0. reflexivity.
+    - cbn [nltb ROps]. rewrite g_lt. destruct (Rltb ts x0); cbn [fst snd map].
+      + destruct r as [|x1 r']; cbn [map]; rops; rewrite ?g_sub, ?h_max; reflexivity.
+      + destruct r as [|x1 r']; cbn [map]; rops; rewrite ?g_sub; reflexivity.
+  Qed.
+
+  Lemma last_map_g l d : last (map g l) (g d) = g (last l d).
+  Proof.
+    induction l as [|a l IH]; [reflexivity|].
+    destruct l as [|b l']; [reflexivity|].
+    change (last (map g (b :: l')) (g d) = g (last (b :: l') d)). exact IH.
+  Qed.
+
+  Lemma isi_profile_tr m m' s1 s2 ts te :
+    (forall a b, isi_ratio ROps m' (h a) (h b) = isi_ratio ROps m a b) ->
+    isi_profile_py ROps (map g s1) (map g s2) (g ts) (g te) m'
+    = (map g (fst (isi_profile_py ROps s1 s2 ts te m)), snd (isi_profile_py ROps s1 s2 ts te m)).
+  Proof.
+    intros Hr. rewrite !isi_profile_py_unfold. rewrite !isi_init_tr. cbn [fst snd].
+    rewrite !map_length, isi_loop_tr. unfold isi_prof.
+    match goal with |- context [map tr3 ?l] => set (L := l) end.
+    assert (E1 : map (@ev_t R) (map tr3 L) = map g (map (@ev_t R) L)).
+    { rewrite !map_map. apply map_ext. intros [[t x] y]. reflexivity. }
+    assert (E2 : map (fun e => isi_ratio ROps m' (snd (fst e)) (snd e)) (map tr3 L)
+                 = map (fun e => isi_ratio ROps m (snd (fst e)) (snd e)) L).
+    { rewrite map_map. apply map_ext. intros [[t x] y]. cbn [tr3 fst snd]. apply Hr. }
+    rewrite E1, E2, Hr.
+    change (g ts :: map g (map (@ev_t R) L)) with (map g (ts :: map (@ev_t R) L)).
+    set (xs := ts :: map (@ev_t R) L). set (ys := _ :: _).
+    unfold close_profile. rewrite last_map_g. cbn [neqb ROps].
+    destruct (Reqb_spec (g (last xs te)) (g te)) as [E|E], (Reqb_spec (last xs te) te) as [E'|E'];
+      cbn [fst snd].
+    - reflexivity.
+    - apply g_inj in E. contradiction.
+    - rewrite E' in E. contradiction.
+    - rewrite map_app. reflexivity.
+  Qed.
+End Transform.
+
+Lemma isi_profile_shift : forall c s1 s2 ts te m,
+  isi_profile_py ROps (map (fun x => x + c) s1) (map (fun x => x + c) s2) (ts + c) (te + c) m
+  = (map (fun x => x + c) (fst (isi_profile_py ROps s1 s2 ts te m)), snd (isi_profile_py ROps s1 s2 ts te m)).
+Proof.
+  intros c s1 s2 ts te m.
+  apply (@isi_profile_tr (fun x => x + c) (fun x => x)).
+  - intros a b. destruct (Rltb_spec (a + c) (b + c)), (Rltb_spec a b); auto; lra.
+  - intros; lra.
+  - reflexivity.
+  - reflexivity.
+  - reflexivity.
+Qed.
+
+Lemma isi_profile_scale : forall k s1 s2 ts te m, 0 < k ->
+  isi_profile_py ROps (map (Rmult k) s1) (map (Rmult k) s2) (k*ts) (k*te) (k*m)
+  = (map (Rmult k) (fst (isi_profile_py ROps s1 s2 ts te m)), snd (isi_profile_py ROps s1 s2 ts te m)).
+Proof.
+  intros k s1 s2 ts te m Hk.
+  apply (@isi_profile_tr (Rmult k) (Rmult k)).
+  - intros a b. destruct (Rltb_spec (k * a) (k * b)), (Rltb_spec a b); auto; nra.
+  - intros; lra.
+  - intros. apply RmaxRmult. lra.
+  - lra.
+  - intros. apply isi_ratio_scale; auto.
+Qed.
+
+Print Assumptions isi_profile_sym.
+Print Assumptions isi_profile_cy_eq.
+Print Assumptions isi_profile_range.
+Print Assumptions isi_distance_cy_avrg.
+Print Assumptions isi_profile_wf.
+Print Assumptions isi_profile_mrts_monotone.
+Print Assumptions isi_profile_self.
+Print Assumptions isi_profile_shift.
+Print Assumptions isi_profile_scale.
